@@ -139,8 +139,8 @@ func ruleH5(c *Ctx) {
 				n++
 				key := fmt.Sprintf("(*hashtable).%s: Equal on a stored key", name)
 				guarded := false
-				for _, pc := range pathConds(call.Block()) {
-					b, ok := pc.If.Cond.(*ssa.BinOp)
+				for _, pf := range pathFacts(call.Block()) {
+					b, ok := pf.Cond.(*ssa.BinOp)
 					if !ok {
 						continue
 					}
@@ -157,7 +157,7 @@ func ruleH5(c *Ctx) {
 					if !readsHash {
 						continue
 					}
-					if (b.Op == token.EQL && pc.Branch) || (b.Op == token.NEQ && !pc.Branch) {
+					if (b.Op == token.EQL && pf.Truth) || (b.Op == token.NEQ && !pf.Truth) {
 						guarded = true
 					}
 				}
@@ -396,11 +396,11 @@ func ruleS5(c *Ctx) {
 				}
 			}
 			unsetGuard := false
-			for _, pc := range pathConds(st.Block()) {
-				cond, neg := stripNot(pc.If.Cond)
+			for _, pf := range pathFacts(st.Block()) {
+				cond, neg := pf.Cond, false
 				if bo, ok := cond.(*ssa.BinOp); ok && (bo.Op == token.EQL || bo.Op == token.NEQ) && derivesFromField(bo.X, "starlark.Thread", "maxSteps") {
 					if k, isK := constInt(bo.Y); isK && k == 0 {
-						isZero := pc.Branch != neg
+						isZero := pf.Truth != neg
 						if bo.Op == token.NEQ {
 							isZero = !isZero
 						}
